@@ -4,8 +4,9 @@
    numbers decimal or 0x-hex, all < 2^32 (the C side stores them in uint32_t fields).
    argv[2] selects what is printed:
      align (default)  the result line of the C: "<rc> <6 fields>" | "FAULT SIGFPE" | "FAULT TIMEOUT"
-     guard            "<4 guard bits> <entries_per_data before the loop>"; bits: sdf rounding, spd rounding,
-                      eps rounding do not wrap, annotation/utc factors non-zero after defaults
+     guard            "<4 guard bits> <eps1> <epd0>"; bits: sdf rounding, spd rounding, eps rounding do not
+                      wrap, annotation/utc factors non-zero after defaults; eps1/epd0 = the loop's arguments
+                      (0 0 if rejected or faulting before the loop) - the loop itself is NOT run in this mode
      consistent       the line is a stored definition; prints "<11 clause bits of Consistent> <Entry256 bit>" *)
 open Jlsmodel_ext
 open Util
@@ -33,8 +34,8 @@ let () = register "sigdef" (fun ic ->
           | Inr (SdFault SdDivZero) -> print_endline "FAULT SIGFPE"
           | Inr (SdFault SdNonterm) -> print_endline "FAULT TIMEOUT")
        | "guard" ->
-         let epd0 = match sd_define sid src ty dt d with Inr (SdOk (_, e0)) -> dec_of_n e0 | _ -> "0" in
-         print_endline (bits (guard_bits w d) ^ " " ^ epd0)
+         let (e1, e0) = if sd_validate sid src ty dt = N0 then sd_loop_args w d else (N0, N0) in
+         print_endline (bits (guard_bits w d) ^ " " ^ dec_of_n e1 ^ " " ^ dec_of_n e0)
        | "consistent" ->
          print_endline (bits (consistent_clauses w d) ^ " " ^ bits [entry256b w d])
        | _ -> failwith "mode")
